@@ -52,7 +52,8 @@ PROPS = {
     'C07': P('proof', True,
              'Verus proves get/nth/front/back/as_slices/make_contiguous against the view for all N and all indices including usize::MAX; Kani proves per capacity that every accessor '
              '(incl. Index/IndexMut, iter, iter_mut, as_mut_slices, to_vec) returns the address of exactly the slot holding that position, pairwise distinct, and that a write through it changes only that position.',
-             not_covered=['Debug output under every formatter flag (assumed contract of core::fmt::DebugList; the crate-side obligation that (&buf).into_iter() yields the view is checked)']),
+             not_covered=['Debug: no contract within reach (core::fmt exhausts CBMC, Verus has no fmt model); BOUNDED STAND-IN p_debug: native execution, every layout of a byte buffer for N <= 3/4, '
+                          '7 formatter flag combinations, buffer / iter / iter_mut / range / range_mut / into_iter / drain compared with the equivalent slice; labelled bounded']),
     'C12': P('other', True,
              'Kani contracts per (N, M): new/default/boxed empty; From<[T;M]>, from_iter, extend keep the last N in order and destroy the rest exactly once (ledger); clone/clone_from/to_vec give '
              'fresh clones (parent ids) in order, source untouched, nothing shared; into_iter yields the original elements in order. Bounded in N and M.'),
@@ -71,7 +72,7 @@ PROPS = {
     'C13': P('other', False,
              'Kani contracts over u8 buffers with both layouts symbolic: eq == equality of the element sequences for capacity pairs (N, M) incl. slices, arrays and references to them; '
              'partial_cmp/cmp == lexicographic order; equal same-capacity buffers feed identical data to a recording Hasher. Bounded in (N, M).',
-             not_covered=['Debug output under every formatter flag (assumed contract of core::fmt::DebugList; the crate-side obligation that (&buf).into_iter() yields the view is checked under C07/C08)']),
+             not_covered=['Debug: no contract within reach (core::fmt exhausts CBMC); BOUNDED STAND-IN p_debug (native, every layout for N <= 3/4, 7 flag combinations, buffer and all iterators / drain vs the equivalent slice); labelled bounded']),
     'C14': P('other', True,
              'Verus proves (all N) the functions the impls are built from: extend_from_slice keeps the last N of (old contents ++ input), truncate_front keeps the suffix, as_slices presents the contents. '
              'Kani contracts for std::io::{Write, Read, BufRead} on CircularBuffer<N, u8>: symbolic layout, symbolic input / destination lengths, consume(k) over the full usize range; '
@@ -85,7 +86,8 @@ PROPS = {
              assumptions=['every heap allocation goes through std::alloc::alloc / alloc_zeroed / realloc (the global allocator API)']),
     'C18': P('other', False,
              'The same deterministic contracts (C01-C13 harnesses) are discharged on the crate built with --features unstable on Kani\'s nightly; both builds satisfying the same functional contracts '
-             'gives equal results, contents and ledger events. The injected-panic part inherits the limits of C05/C06. Bounded in N.'),
+             'gives equal results, contents and ledger events. Bounded in N. BOUNDED STAND-IN (differential): the native scenario harnesses (20 operations, the destructor- and user-code panic injections, Debug) are enumerated on two native builds - '
+             'default/stable and --features unstable/nightly - and the hash of the observable trace (results, contents, destructor and clone order, Debug output, caught panics) must be identical for every choice vector, N <= 3/4; labelled bounded.'),
     'C11': P('proof', True,
              'Verus proves absence of panics (assert!/debug_assert!/expect), arithmetic overflow, out-of-bounds indexing, division by zero and non-termination for every verified '
              'function under wf alone (swap: under the documented index condition), for all N including 0 and all arguments including usize::MAX. '
